@@ -336,6 +336,18 @@ def _(g):
     return _uni_short(g, 1)
 
 
+@entry("uni.add_by_tick:token1_short_token0_all", "uni", "wallet_short")
+def _(g):
+    """token0 asked for with (nearly) the whole balance - inside the wallet's 1e-5 snap-to-zero zone, below, on or above
+    it - and far more of the drained token1 than is left: refused on token1 after token0 was handled"""
+    mw = g.mw
+    lo, hi, sp, cur = _uni_ticks(g)
+    b, q = _bq(g)
+    t0, t1 = mw["token0"], mw["token1"]
+    amt = {t0: {"f": f"wallet:{t0}", "x": g.rng.choice(["1", "0.999996", "1.000004", "0.999993"])}, t1: {"f": f"wallet:{t1}", "x": "1000000"}}
+    return [drain(t1), T(O("uni.add_by_tick", g.name, {"lo": lo, "hi": hi, "base": amt[b], "quote": amt[q]}), want_token=t1), refill(t1)]
+
+
 @entry("uni.add_by_tick:both_short", "uni", "wallet_short")
 def _(g):
     lo, hi, sp, cur = _uni_ticks(g)
@@ -930,6 +942,47 @@ def _(g):
     return [O("deribit.withdraw", g.name, {"amount": {"f": f"cash:{g.name}", "x": g.rng.choice(["1", "0.999999"])}}),
             T(O("deribit.buy", g.name, {"inst": _drb_inst(g), "amount": {"level": 0, "x": "1", "else": _one(g)}})),
             O("deribit.deposit", g.name, {"amount": {"f": f"wallet:{t}", "x": "0.5"}})]
+
+
+def _drb_priced(g):
+    """the optional pricing arguments of buy / sell, chosen so that they exclude no level and name the best one: the same
+    rejection must leave the same nothing behind whichever code path the arguments select"""
+    return g.rng.choice([
+        {"mode": "cap", "k": g.rng.choice(["3", "10"])},
+        {"mode": "token", "px": {"level": 0}},
+        {"mode": "token+cap", "px": {"level": 0}, "k": "5"},
+        {"mode": "usd", "px": {"level": 0}},
+    ])
+
+
+@entry("deribit.buy:cash_short:priced", "deribit", "cash_short", place="open")
+def _(g):
+    t = _tok(g)
+    return [O("deribit.withdraw", g.name, {"amount": {"f": f"cash:{g.name}", "x": g.rng.choice(["1", "0.999999"])}}),
+            T(O("deribit.buy", g.name, dict({"inst": _drb_inst(g), "amount": {"level": 0, "x": g.rng.choice(["1", "0.5"]), "else": _one(g)}}, **_drb_priced(g)))),
+            O("deribit.deposit", g.name, {"amount": {"f": f"wallet:{t}", "x": "0.5"}})]
+
+
+@entry("deribit.buy:beyond_depth:capped", "deribit", "beyond_depth", place="open")
+def _(g):
+    return [T(O("deribit.buy", g.name, {"inst": _drb_inst(g), "amount": {"depth": g.rng.choice(["1.5", "1.01", "20"]), "else": "100000"}, "mode": "cap", "k": g.rng.choice(["3", "1.0001"])}))]
+
+
+@entry("deribit.sell:beyond_holding:priced", "deribit", "beyond_holding", place="open")
+def _(g):
+    i = _drb_inst(g)
+    return [O("deribit.buy", g.name, {"inst": i, "amount": {"abs": _one(g)}}),
+            T(O("deribit.sell", g.name, dict({"inst": {"held": g.rng.randint(0, 3)}, "amount": {"holding": g.rng.choice(["1.5", "2"]), "else": "1", "max_level": 0}}, **_drb_priced(g))))]
+
+
+@entry("deribit.sell:unheld:priced", "deribit", "unheld", place="open")
+def _(g):
+    return [T(O("deribit.sell", g.name, dict({"inst": _drb_inst(g), "amount": {"abs": _one(g)}}, **_drb_priced(g))))]
+
+
+@entry("deribit.buy:closed_bar:priced", "deribit", "closed_bar", place="closed")
+def _(g):
+    return [T(O("deribit.buy", g.name, dict({"inst": _drb_inst(g), "amount": {"abs": _one(g)}}, **_drb_priced(g))))]
 
 
 @entry("deribit.buy:closed_bar", "deribit", "closed_bar", place="closed")
